@@ -149,12 +149,16 @@ pub async fn run_config(cfg_name: &str, rep: &mut Report, ops: &mut Vec<String>,
     let dev_b = SingleParty::new_random();
     let dev_b_pub: DevicePublicKey = dev_b.verifying_key().to_bytes().into();
     let dev_b: BoxedEd25519Signer = Box::new(dev_b);
+    // third device: trusted by a normal sync, revoked at the end by a forced update of the device log (update_account)
+    let dev_c = SingleParty::new_random();
+    let dev_c_pub: DevicePublicKey = dev_c.verifying_key().to_bytes().into();
+    let dev_c: BoxedEd25519Signer = Box::new(dev_c);
     let unknown: BoxedEd25519Signer = Box::new(SingleParty::new_random());
     let mut revoked = false;
     if !excluded {
         let a = a1.account.lock().await;
         let log = a.device_log().await?;
-        log.write().await.apply(&[DeviceEvent::Trust(TrustedDevice::new(dev_b_pub.clone(), None, None))]).await?;
+        log.write().await.apply(&[DeviceEvent::Trust(TrustedDevice::new(dev_b_pub.clone(), None, None)), DeviceEvent::Trust(TrustedDevice::new(dev_c_pub.clone(), None, None))]).await?;
         drop(a);
         sync_http(&a1, &live.addr).await.map_err(|e| anyhow::anyhow!("sync trust: {e}"))?;
     }
@@ -265,6 +269,52 @@ pub async fn run_config(cfg_name: &str, rep: &mut Report, ops: &mut Vec<String>,
                 rep.spec_fail(&format!("c11-body-not-covered-by-signature:{handler}"), json!({"config": cfg_name, "method": method, "path": path, "status": code}),
                     "the endpoint accepted a request body that the presented signature does not cover (only the path is signed)");
             }
+        }
+    }
+    // revocation that reaches the server as a forced update of the whole device log (what a client sends after
+    // rewriting a log): the revoked key must be refused afterwards exactly as after an ordinary sync
+    if !excluded {
+        let c_ok_before = {
+            let p = "/api/v1/sync/account/status";
+            let tok = token(&dev_c, p.as_bytes()).await;
+            http.get(format!("{base}/sync/account/status?connection_id=verif")).header("X-SOS-ACCOUNT-ID", a1.id.to_string()).header("Authorization", format!("Bearer {tok}")).send().await.map(|r| r.status().as_u16()).unwrap_or(0)
+        };
+        rep.count(&format!("forced-revocation:third-device-before:{c_ok_before}"));
+        let body = {
+            let a = a1.account.lock().await;
+            let log = a.device_log().await?;
+            log.write().await.apply(&[DeviceEvent::Revoke(dev_c_pub.clone())]).await?;
+            let cs = a.create_set().await?;
+            let mut t = sos_core::commit::CommitTree::new();
+            let mut hashes: Vec<[u8; 32]> = cs.device.records().iter().map(|r| *r.commit().as_ref()).collect();
+            t.append(&mut hashes); t.commit();
+            let us = sos_sync::UpdateSet { identity: None, account: None, device: Some(sos_core::events::patch::DeviceDiff { last_commit: None, patch: cs.device, checkpoint: t.head()? }), files: None, folders: Default::default() };
+            us.encode().await?
+        };
+        let tok = token(&a1.signer, &body).await;
+        let code = http.post(format!("{base}/sync/account?connection_id=verif")).header("X-SOS-ACCOUNT-ID", a1.id.to_string())
+            .header("Authorization", format!("Bearer {tok}")).header("content-type", "application/x-protobuf").body(body.clone()).send().await.map(|r| r.status().as_u16()).unwrap_or(0);
+        rep.count(&format!("forced-revocation:update_account:{code}"));
+        if code == 200 && c_ok_before == 200 {
+            for (method, handler, path, body, destructive) in &bodies {
+                if *destructive { continue; }
+                let signed_path = format!("/api/v1{}", path.split('?').next().unwrap());
+                let signs_body = matches!(*handler, "event_scan" | "event_diff" | "event_patch" | "sync_account" | "create_account" | "update_account");
+                let right: Vec<u8> = if signs_body { body.clone().unwrap_or_default() } else { signed_path.as_bytes().to_vec() };
+                let tok = token(&dev_c, &right).await;
+                let m = reqwest::Method::from_bytes(method.as_bytes())?;
+                let mut rq = http.request(m, format!("{base}{path}?connection_id=verif")).header("X-SOS-ACCOUNT-ID", a1.id.to_string()).header("Authorization", format!("Bearer {tok}"));
+                if let Some(b) = body { rq = rq.header("content-type", "application/x-protobuf").body(b.clone()); }
+                let code = rq.send().await.map(|r| r.status().as_u16()).unwrap_or(0);
+                rep.case(&format!("{cfg_name}|after-forced-revocation|{handler}|{method}|{path}"), true);
+                rep.count(&format!("{cfg_name}:RevokedByForcedUpdate:{code}"));
+                if !(code == 400 || code == 403 || code == 401 || code == 0) {
+                    rep.spec_fail(&format!("c11-request-accepted-with-RevokedKey-credential-after-forced-update:{handler}"), json!({"config": cfg_name, "method": method, "path": path, "status": code}),
+                        "a device revoked by a forced update of the device log is still accepted");
+                }
+            }
+        } else {
+            rep.spec_fail("c11-forced-revocation-not-exercised", json!({"config": cfg_name, "third_device_before": c_ok_before, "update_account": code}), "the forced device-log update could not be set up (third device not accepted before, or update refused)");
         }
     }
     rep.sample(json!({"config": cfg_name, "routes": bodies.iter().map(|b| format!("{} {}", b.0, b.2)).collect::<Vec<_>>()}));
